@@ -337,15 +337,30 @@ def build_c_driver(config="pinned", extra_flags="", workdir=None):
     rc, out, err = run(["make", "-j16", "-s"], cwd=d, timeout=900)
     if rc != 0 and any(os.path.basename(u).startswith("opt_") for u in units):
         # optional harness units (opt_*.c reach into library internals); a
-        # refactor may make them uncompilable: link without them
-        dropped = [os.path.splitext(os.path.basename(u))[0] + ".o" for u in units if os.path.basename(u).startswith("opt_")]
-        mk2 = open(os.path.join(d, "Makefile")).read()
-        for o in dropped:
-            mk2 = mk2.replace(" " + o, "", 1)
-        open(os.path.join(d, "Makefile"), "w").write(mk2)
-        rc, out, err = run(["make", "-j16", "-s", "-k"], cwd=d, timeout=900)
-        if rc == 0:
-            BUILD_NOTES.append("config %s: optional harness units dropped (did not build against this tree): %s" % (config, ",".join(dropped)))
+        # refactor may make one uncompilable or unlinkable: link without it.
+        # First the units whose object did not compile, then (a link error, e.g.
+        # a duplicate symbol) the remaining optional units one at a time, last all.
+        opt = [os.path.splitext(os.path.basename(u))[0] + ".o" for u in units if os.path.basename(u).startswith("opt_")]
+        run(["make", "-j16", "-s", "-k"], cwd=d, timeout=900)
+        failed = [o for o in opt if not os.path.exists(os.path.join(d, o))]
+        base_mk = open(os.path.join(d, "Makefile")).read()
+
+        def attempt(drop):
+            mk2 = base_mk
+            for o in drop:
+                mk2 = mk2.replace(" " + o, "", 1)
+            open(os.path.join(d, "Makefile"), "w").write(mk2)
+            return run(["make", "-j16", "-s", "-k"], cwd=d, timeout=900)
+        tries = []
+        if failed:
+            tries.append(failed)
+        tries += [failed + [o] for o in opt if o not in failed]
+        tries.append(opt)
+        for drop in tries:
+            rc, out, err = attempt(drop)
+            if rc == 0:
+                BUILD_NOTES.append("config %s: optional harness units dropped (did not build/link against this tree): %s" % (config, ",".join(drop)))
+                break
     if rc != 0:
         raise RuntimeError("C driver build failed (%s):\n%s" % (config, (out + err)[-4000:]))
     return os.path.join(d, "drv"), d
